@@ -15,7 +15,7 @@ import (
 func init() {
 	register(&Pack{ID: "C16", Run: runC16, Meta: core.Meta{
 		Level:       "other",
-		Explanation: "bracket: every path of every Apply of the AST node kinds is OnEnter_K(depth, node), children, OnLeave_K(depth, node) with the same kind K, the method's own depth and the same node, error paths being prefixes of it. error-stops: every call returning an error is followed at once by the test of that error; non-nil returns that very error with no event in between (deferred calls included), nil continues. children: AstSeq.Apply ranges ascending over n.Seq and applies each child with depth+1 and the same visitor, between enter and leave. root-pairing: Root selects the Morphism callbacks, non-Root the Seq callbacks, for enter and leave alike (both test the same never-modified field of the receiver copy). type-names: constructors store TypeOf[X]() of exactly the Go type parameters of the step (F[X,Y] -> TypeA: X, TypeB: Y; T[X] -> Type: X) and the carried value (f.f / p.v). combinator-op: From builds a fresh open root and appends AstFrom; Join/Yield append their node to the morphism's own code; LiftF appends AstMap into a fresh open non-root sequence and appends that; WrapF appends a fresh open non-root sequence; Unit calls unit(); each result wraps the same code. append-discipline: a closed sequence refuses without mutation; an open last child *AstSeq is tried first and a local append happens only if it refused; every accepting path performs exactly one append of the given node. unit-discipline: refuses iff closed; delegates to an open last child and stops if that closed something; otherwise closes itself, the root never closes. The tree shape for all programs follows on paper from the two disciplines (recursion over run-time trees is not decided).",
+		Explanation: "bracket: every path of every Apply of the AST node kinds is OnEnter_K(depth, node), children, OnLeave_K(depth, node) with the same kind K, the method's own depth and the same node, error paths being prefixes of it. error-stops: every call returning an error is followed at once by the test of that error; non-nil returns that very error with no event in between (deferred calls included), nil continues. children: AstSeq.Apply ranges ascending over n.Seq and applies each child with depth+1 and the same visitor, between enter and leave. root-pairing: Root selects the Morphism callbacks, non-Root the Seq callbacks, for enter and leave alike (both test the same never-modified field of the receiver copy). type-names: constructors store TypeOf[X]() of exactly the Go type parameters of the step (F[X,Y] -> TypeA: X, TypeB: Y; T[X] -> Type: X) and the carried value (f.f / p.v). combinator-op: From builds a fresh open root and appends AstFrom; Join/Yield append their node to the morphism's own code; LiftF appends AstMap into a fresh open non-root sequence and appends that; WrapF appends a fresh open non-root sequence; Unit calls unit(); each result wraps the same code. append-discipline: a closed sequence refuses without mutation; an open last child *AstSeq is tried first and a local append happens only if it refused; every accepting path performs exactly one append of the given node. unit-discipline: refuses iff closed; delegates to an open last child and stops if that closed something; otherwise closes itself, the root never closes. The tree shape for all programs follows on paper from the two disciplines (recursion over run-time trees is not decided). type-name-pure: TypeOf depends on the type alone - what it reaches touches package state only read-only, as a lock, or as a memo obeying the memo discipline.",
 		RuleText:    "one obligation per (rule, method / constructor)",
 		TrustedBase: []string{"go/types", "go/ssa", "path engine P"},
 	}})
